@@ -44,27 +44,27 @@ Section Refine.
   Definition P_req (r : req) : Prop :=
     forall body kvs rend, bytes body -> olayout body kvs rend -> doc_ok (MMap kvs) = true ->
     forall st p, cursor body kvs rend st p ->
-    forall toks, spec_req kvs r = (toks, None, true) ->
-    exists st' p', run_req r st p = (toks, Go st' p') /\ cursor body kvs rend st' p'.
+    forall toks c, spec_req kvs r = (toks, None, c) ->
+    exists st' p', run_req r st p = (toks, Go st' p', false) /\ cursor body kvs rend st' p'.
 
   Definition P_reqs (l : reqs) : Prop :=
     forall body kvs rend, bytes body -> olayout body kvs rend -> doc_ok (MMap kvs) = true ->
     forall st p, cursor body kvs rend st p ->
-    forall toks, spec_reqs kvs l = (toks, None, true) ->
-    exists st' p', run_reqs l st p = (toks, Go st' p') /\ cursor body kvs rend st' p'.
+    forall toks c, spec_reqs kvs l = (toks, None, c) ->
+    exists st' p', run_reqs l st p = (toks, Go st' p', false) /\ cursor body kvs rend st' p'.
 
   Definition P_areq (a : areq) : Prop :=
     forall vs rend p, bytes p -> alayout p vs rend -> all_ok vs ->
     forall size idx, idx + N.of_nat (length vs) = size ->
-    forall toks vs', spec_areq vs a = ((toks, None, true), vs') ->
-    exists idx' p', run_areq a (mkA size idx) p = (toks, Go (mkA size idx') p') /\
+    forall toks c vs', spec_areq vs a = ((toks, None, c), vs') ->
+    exists idx' p', run_areq a (mkA size idx) p = (toks, Go (mkA size idx') p', false) /\
       bytes p' /\ alayout p' vs' rend /\ all_ok vs' /\ idx' + N.of_nat (length vs') = size.
 
   Definition P_areqs (l : areqs) : Prop :=
     forall vs rend p, bytes p -> alayout p vs rend -> all_ok vs ->
     forall size idx, idx + N.of_nat (length vs) = size ->
-    forall toks vs', spec_areqs vs l = ((toks, None, true), vs') ->
-    exists idx' p', run_areqs l (mkA size idx) p = (toks, Go (mkA size idx') p') /\
+    forall toks c vs', spec_areqs vs l = ((toks, None, c), vs') ->
+    exists idx' p', run_areqs l (mkA size idx) p = (toks, Go (mkA size idx') p', false) /\
       bytes p' /\ alayout p' vs' rend /\ all_ok vs' /\ idx' + N.of_nat (length vs') = size.
 
   (* ---------- unfolding equations of the mutual fixpoints (stated with the folded names) ---------- *)
@@ -117,14 +117,14 @@ Section Refine.
 
   Lemma run_reqs_cons r l st rest : run_reqs (RCons r l) st rest =
     match run_req r st rest with
-    | (t1, Go st1 r1) => let '(t2, oc) := run_reqs l st1 r1 in (t1 ++ t2, oc)
+    | (t1, Go st1 r1, f1) => let '(t2, oc, f2) := run_reqs l st1 r1 in (t1 ++ t2, oc, f1 || f2)
     | failed => failed
     end.
   Proof. reflexivity. Qed.
 
   Lemma run_areqs_cons a l st rest : run_areqs (ACons a l) st rest =
     match run_areq a st rest with
-    | (t1, Go st1 r1) => let '(t2, oc) := run_areqs l st1 r1 in (t1 ++ t2, oc)
+    | (t1, Go st1 r1, f1) => let '(t2, oc, f2) := run_areqs l st1 r1 in (t1 ++ t2, oc, f1 || f2)
     | failed => failed
     end.
   Proof. reflexivity. Qed.
@@ -133,55 +133,45 @@ Section Refine.
     lift_find (find_value_by_key narrow widen o q st rest)
       (fun st1 r1 =>
          match read_map_size o r1 with
-         | ROk n r2 =>
-           let '(t, oc) := run_reqs body (mkO r2 n 0 None) r2 in
-           (wrap_child t oc, after_child_obj on_finish_child st1 oc)
-         | RNot r2 => ([KNone], Go (on_finish_child st1) r2)
-         | RErr e => ([], raise_typed e st1 r1)
-         | RFuel => ([], NoFuel)
+         | ROk n r2 => with_child (after_child_obj on_finish_child st1) (run_reqs body (mkO r2 n 0 None) r2)
+         | RNot r2 => ([KNone], Go (on_finish_child st1) r2, false)
+         | RErr e => ([], raise_typed e st1 r1, false)
+         | RFuel => ([], NoFuel, false)
          end)
-      (fun st1 r1 => ([KNone], Go st1 r1))
-      (fun e s p => Raise e s p).
+      (fun st1 r1 => ([KNone], Go st1 r1, false)).
   Proof. reflexivity. Qed.
 
   Lemma run_req_arr q body st rest : run_req (RArr q body) st rest =
     lift_find (find_value_by_key narrow widen o q st rest)
       (fun st1 r1 =>
          match read_array_size o r1 with
-         | ROk n r2 =>
-           let '(t, oc) := run_areqs body (mkA n 0) r2 in
-           (wrap_child t oc, after_child_plain on_finish_child st1 oc)
-         | RNot r2 => ([KNone], Go (on_finish_child st1) r2)
-         | RErr e => ([], raise_typed e st1 r1)
-         | RFuel => ([], NoFuel)
+         | ROk n r2 => with_child (after_child_arr on_finish_child st1) (run_areqs body (mkA n 0) r2)
+         | RNot r2 => ([KNone], Go (on_finish_child st1) r2, false)
+         | RErr e => ([], raise_typed e st1 r1, false)
+         | RFuel => ([], NoFuel, false)
          end)
-      (fun st1 r1 => ([KNone], Go st1 r1))
-      (fun e s p => Raise e s p).
+      (fun st1 r1 => ([KNone], Go st1 r1, false)).
   Proof. reflexivity. Qed.
 
   Lemma run_areq_obj body size idx rest : (idx =? size) = false -> run_areq (AObj body) (mkA size idx) rest =
     match read_map_size o rest with
-    | ROk n r =>
-      let '(t, oc) := run_reqs body (mkO r n 0 None) r in
-      (wrap_child t oc, after_child_obj (fun s => s) (mkA size (idx + 1)) oc)
-    | RNot r => ([KNone], Go (mkA size (idx + 1)) r)
-    | RErr e => ([], raise_typed e (mkA size idx) rest)
-    | RFuel => ([], NoFuel)
+    | ROk n r => with_child (after_child_obj (fun s => s) (mkA size (idx + 1))) (run_reqs body (mkO r n 0 None) r)
+    | RNot r => ([KNone], Go (mkA size (idx + 1)) r, false)
+    | RErr e => ([], raise_typed e (mkA size idx) rest, false)
+    | RFuel => ([], NoFuel, false)
     end.
   Proof. intros H. cbn [MpScopeModel.run_areq a_index a_size]. rewrite H. reflexivity. Qed.
 
   Lemma run_areq_arr body size idx rest : (idx =? size) = false -> run_areq (AArr body) (mkA size idx) rest =
     match read_array_size o rest with
-    | ROk n r =>
-      let '(t, oc) := run_areqs body (mkA n 0) r in
-      (wrap_child t oc, after_child_plain (fun s => s) (mkA size (idx + 1)) oc)
-    | RNot r => ([KNone], Go (mkA size (idx + 1)) r)
-    | RErr e => ([], raise_typed e (mkA size idx) rest)
-    | RFuel => ([], NoFuel)
+    | ROk n r => with_child (after_child_arr (fun s => s) (mkA size (idx + 1))) (run_areqs body (mkA n 0) r)
+    | RNot r => ([KNone], Go (mkA size (idx + 1)) r, false)
+    | RErr e => ([], raise_typed e (mkA size idx) rest, false)
+    | RFuel => ([], NoFuel, false)
     end.
   Proof. intros H. cbn [MpScopeModel.run_areq a_index a_size]. rewrite H. reflexivity. Qed.
 
-  Lemma of_tres_go t toks : of_tres t = (toks, None, true) ->
+  Lemma of_tres_go t toks c : of_tres t = (toks, None, c) ->
     (exists x, t = TVal x /\ toks = [KVal x]) \/ (t = TNot /\ toks = [KFalse]).
   Proof.
     destruct t; cbn [of_tres]; intros H; [left | right | discriminate].
@@ -192,7 +182,7 @@ Section Refine.
   (* SerializeValue(key, value) *)
   Lemma H_get q t : P_req (RGet q t).
   Proof.
-    intros body kvs rend Hb HL Hok st p Hc toks Hs.
+    intros body kvs rend Hb HL Hok st p Hc toks c Hs.
     destruct (doc_ok_map _ Hok) as [Hsup [Hdist Hvals]].
     destruct (find_spec narrow widen o body kvs rend Hb HL Hsup Hdist q st p Hc) as [b [st1 [p1 [Ef Hres]]]].
     cbn [MpScopeModel.run_req]. rewrite Ef. cbn [MpScopeSpec.spec_req] in Hs.
@@ -201,118 +191,158 @@ Section Refine.
       destruct (at_member_facts body kvs rend Hb _ _ _ _ HM) as [Hv [Hbp _]].
       rewrite (read_target_on narrow widen o t p1 v pn Hbp Hv).
       pose proof (after_member narrow widen body kvs rend _ _ _ _ HM) as Hc'.
-      destruct (of_tres_go _ _ Hs) as [[x [-> ->]] | [-> ->]]; cbn [rres_of_tres]; eexists _, _; split; try reflexivity; exact Hc'.
-    - destruct Hres as [-> [Hc' _]]. cbn [lift_find]. injection Hs as <-. eexists _, _. split; [reflexivity | exact Hc'].
+      destruct (of_tres_go _ _ _ Hs) as [[x [-> ->]] | [-> ->]]; cbn [rres_of_tres]; eexists _, _; split; try reflexivity; exact Hc'.
+    - destruct Hres as [-> [Hc' _]]. cbn [lift_find]. injection Hs as <- _. eexists _, _. split; [reflexivity | exact Hc'].
   Qed.
 
-  Lemma child_go inner complete toks : child inner complete = (toks, None, true) ->
-    exists t, inner = (t, None, true) /\ toks = KOpen :: t ++ [KClose] /\ complete = true.
+  Lemma child_go inner complete toks c : child inner complete = (toks, None, c) ->
+    exists t c', inner = (t, None, c') /\ toks = KOpen :: t ++ [KClose].
   Proof.
-    destruct inner as [[t e] c]. destruct e as [e|]; cbn [child]; intros H; [discriminate|].
-    injection H as <- Hc. apply andb_true_iff in Hc. destruct Hc as [-> ->]. exists t. repeat split.
+    destruct inner as [[t e] c0]. destruct e as [e|]; cbn [child]; intros H; [discriminate|].
+    injection H as <- _. exists t, c0. split; reflexivity.
   Qed.
 
-  Lemma not_container_go v toks : not_container o v = (toks, None, true) ->
+  Lemma not_container_go v toks c : not_container o v = (toks, None, c) ->
     toks = [KNone] /\ forall (A : Type) r, @not_this o A v r = RNot r.
   Proof.
     unfold not_container, not_this, mismatch_outcome.
     destruct v; cbn [is_nil]; destruct (o_mismatch o); intros H;
-      first [ discriminate H | injection H as <-; split; reflexivity ].
+      first [ discriminate H | injection H as <- _; split; reflexivity ].
   Qed.
 
   Lemma H_nil : P_reqs RNil.
   Proof.
-    intros body kvs rend Hb HL Hok st p Hc toks Hs. cbn [MpScopeSpec.spec_reqs] in Hs. injection Hs as <-.
+    intros body kvs rend Hb HL Hok st p Hc toks c Hs. cbn [MpScopeSpec.spec_reqs] in Hs. injection Hs as <- _.
     exists st, p. split; [reflexivity | exact Hc].
   Qed.
 
   Lemma H_cons r l : P_req r -> P_reqs l -> P_reqs (RCons r l).
   Proof.
-    intros IHr IHl body kvs rend Hb HL Hok st p Hc toks Hs. rewrite spec_reqs_cons in Hs.
+    intros IHr IHl body kvs rend Hb HL Hok st p Hc toks c Hs. rewrite spec_reqs_cons in Hs.
     destruct (spec_req kvs r) as [[t1 e1] c1] eqn:E1. destruct e1 as [e1|]; [discriminate Hs|].
-    destruct (spec_reqs kvs l) as [[t2 e2] c2] eqn:E2. injection Hs as <- -> Hcc.
-    apply andb_true_iff in Hcc. destruct Hcc as [-> ->].
-    destruct (IHr body kvs rend Hb HL Hok st p Hc t1 E1) as [st1 [p1 [R1 Hc1]]].
-    destruct (IHl body kvs rend Hb HL Hok st1 p1 Hc1 t2 E2) as [st2 [p2 [R2 Hc2]]].
+    destruct (spec_reqs kvs l) as [[t2 e2] c2] eqn:E2. injection Hs as <- -> _.
+    destruct (IHr body kvs rend Hb HL Hok st p Hc t1 c1 E1) as [st1 [p1 [R1 Hc1]]].
+    destruct (IHl body kvs rend Hb HL Hok st1 p1 Hc1 t2 c2 E2) as [st2 [p2 [R2 Hc2]]].
     exists st2, p2. split; [|exact Hc2]. rewrite run_reqs_cons, R1, R2. reflexivity.
   Qed.
 
   (* a child object scope: opened at a value that is a map, driven by a program, destroyed *)
-  Lemma child_obj_run body_reqs p1 kvs' pn t :
+  Lemma child_obj_run body_reqs p1 kvs' pn t c :
     P_reqs body_reqs -> bytes p1 -> decode p1 = Some (MMap kvs', pn) -> doc_ok (MMap kvs') = true ->
-    spec_reqs kvs' body_reqs = (t, None, true) ->
+    spec_reqs kvs' body_reqs = (t, None, c) ->
     exists bodyc cst cp,
       read_map_size o p1 = ROk (N.of_nat (length kvs')) bodyc /\
-      run_reqs body_reqs (mkO bodyc (N.of_nat (length kvs')) 0 None) bodyc = (t, Go cst cp) /\
-      close_obj cst cp = SOk pn.
+      run_reqs body_reqs (mkO bodyc (N.of_nat (length kvs')) 0 None) bodyc = (t, Go cst cp, false) /\
+      close_obj cst cp = CDone pn false.
   Proof.
     intros IH Hbp Hv Hok Hs.
     destruct (read_map_size_on o p1 _ pn Hbp Hv) as [bodyc [Hr [HLc Hsuf]]].
     pose proof (suffix_bytes _ _ Hsuf Hbp) as Hbc.
     assert (Hc0 : cursor bodyc kvs' pn (mkO bodyc (N.of_nat (length kvs')) 0 None) bodyc)
       by (apply (C_at bodyc kvs' pn [] kvs' bodyc); [reflexivity | constructor | exact HLc]).
-    destruct (IH bodyc kvs' pn Hbc HLc Hok _ _ Hc0 t Hs) as [cst [cp [Hrun Hcc]]].
+    destruct (IH bodyc kvs' pn Hbc HLc Hok _ _ Hc0 t c Hs) as [cst [cp [Hrun Hcc]]].
     exists bodyc, cst, cp. split; [exact Hr|]. split; [exact Hrun|].
     apply (close_spec narrow widen bodyc kvs' pn). exact Hcc.
   Qed.
 
-  Lemma child_arr_run body_reqs p1 vs pn t :
+  (* ~CMsgPackReadArrayScope: the elements not consumed are skipped *)
+  Lemma close_arr_loop_spec : forall vs' fuel idx p rend, alayout p vs' rend -> (length vs' < fuel)%nat ->
+    arr_close_loop fuel idx (idx + N.of_nat (length vs')) p = CDone rend false.
+  Proof.
+    induction vs' as [|v vs' IH]; intros fuel idx p rend HL Hf; (destruct fuel as [|f]; [cbn [length] in Hf; lia|]); cbn [arr_close_loop].
+    - inversion HL; subst. replace (idx <? idx + N.of_nat (length (@nil mpv))) with false by (symmetry; cbn [length]; lia). reflexivity.
+    - inversion HL as [|? ? p' ? ? Hv HL']; subst. cbn [length] in Hf.
+      replace (idx <? idx + N.of_nat (length (v :: vs'))) with true by (symmetry; cbn [length]; lia).
+      rewrite (skip_at_exact _ _ _ Hv).
+      replace (idx + N.of_nat (length (v :: vs'))) with (idx + 1 + N.of_nat (length vs')) by (cbn [length]; lia).
+      apply (IH f (idx + 1) p' rend HL'). lia.
+  Qed.
+
+  Lemma alayout_length p vs r : alayout p vs r -> (length vs + length r <= length p)%nat.
+  Proof. induction 1; [cbn; lia|]. apply decode_shorter in H. cbn [length]. lia. Qed.
+
+  Lemma close_arr_spec vs' idx size p rend : alayout p vs' rend -> idx + N.of_nat (length vs') = size ->
+    close_arr (mkA size idx) p = CDone rend false.
+  Proof.
+    intros HL Hi. unfold close_arr. cbn [a_index a_size]. rewrite <- Hi.
+    apply (close_arr_loop_spec vs'); [exact HL | pose proof (alayout_length _ _ _ HL); lia].
+  Qed.
+
+  Lemma child_arr_run body_reqs p1 vs pn t c vs' :
     P_areqs body_reqs -> bytes p1 -> decode p1 = Some (MArr vs, pn) -> doc_ok (MArr vs) = true ->
-    spec_areqs vs body_reqs = ((t, None, true), []) ->
-    exists bodyc ast,
+    spec_areqs vs body_reqs = ((t, None, c), vs') ->
+    exists bodyc ast cp,
       read_array_size o p1 = ROk (N.of_nat (length vs)) bodyc /\
-      run_areqs body_reqs (mkA (N.of_nat (length vs)) 0) bodyc = (t, Go ast pn).
+      run_areqs body_reqs (mkA (N.of_nat (length vs)) 0) bodyc = (t, Go ast cp, false) /\
+      close_arr ast cp = CDone pn false.
   Proof.
     intros IH Hbp Hv Hok Hs.
     destruct (read_array_size_on o p1 _ pn Hbp Hv) as [bodyc [Hr [HLc Hsuf]]].
     pose proof (suffix_bytes _ _ Hsuf Hbp) as Hbc.
-    destruct (IH vs pn bodyc Hbc HLc (doc_ok_arr _ Hok) (N.of_nat (length vs)) 0 (N.add_0_l _) t [] Hs)
-      as [idx' [p' [Hrun [_ [HL' _]]]]].
-    apply alayout_nil in HL'. subst p'.
-    exists bodyc, (mkA (N.of_nat (length vs)) idx'). split; [exact Hr | exact Hrun].
+    destruct (IH vs pn bodyc Hbc HLc (doc_ok_arr _ Hok) (N.of_nat (length vs)) 0 (N.add_0_l _) t c vs' Hs)
+      as [idx' [p' [Hrun [_ [HL' [_ Hi]]]]]].
+    exists bodyc, (mkA (N.of_nat (length vs)) idx'), p'. split; [exact Hr|]. split; [exact Hrun|].
+    apply (close_arr_spec vs'); assumption.
   Qed.
 
-  Lemma spec_arr_child_go vs body_reqs toks :
-    (match spec_areqs vs body_reqs with (r', lft) => child r' (match lft with [] => true | _ => false end) end) = (toks, None, true) ->
-    exists t, spec_areqs vs body_reqs = ((t, None, true), []) /\ toks = KOpen :: t ++ [KClose].
+  Lemma spec_arr_child_go vs body_reqs toks c :
+    (match spec_areqs vs body_reqs with (r', lft) => child r' (match lft with [] => true | _ => false end) end) = (toks, None, c) ->
+    exists t c' vs', spec_areqs vs body_reqs = ((t, None, c'), vs') /\ toks = KOpen :: t ++ [KClose].
   Proof.
-    destruct (spec_areqs vs body_reqs) as [r' lft]. intros H. apply child_go in H. destruct H as [t [-> [-> Hl]]].
-    destruct lft; [|discriminate]. exists t. split; reflexivity.
+    destruct (spec_areqs vs body_reqs) as [r' lft]. intros H. apply child_go in H. destruct H as [t [c' [-> ->]]].
+    exists t, c', lft. split; reflexivity.
   Qed.
 
-  Lemma bin_reads_all : forall bs size idx r, idx + N.of_nat (length bs) = size ->
-    bin_reads (length bs) (mkA size idx) (bs ++ r) = (map KByte bs, Go (mkA size size) r).
+  (* n <= |bs| bytes loaded from a byte array, the scope destroyed: the rest of the bytes is passed *)
+  Lemma bin_reads_prefix : forall n bs size idx r, (n <= length bs)%nat ->
+    bin_reads n (mkA size idx) (bs ++ r) =
+      (map KByte (firstn n bs), Go (mkA size (idx + N.of_nat n)) (skipn n bs ++ r)) \/
+    idx + N.of_nat (length bs) <> size.
   Proof.
-    induction bs as [|b bs IH]; intros size idx r H; cbn [length bin_reads map app].
-    - cbn [length] in H. replace idx with size by lia. reflexivity.
-    - cbn [a_index a_size read_binary]. cbn [length] in H. replace (idx =? size) with false by (symmetry; lia).
-      rewrite (IH size (idx + 1) r) by lia. reflexivity.
+    induction n as [|n IH]; intros bs size idx r Hn.
+    - left. cbn [bin_reads firstn skipn map]. rewrite N.add_0_r. reflexivity.
+    - destruct bs as [|b bs]; [cbn [length] in Hn; lia|].
+      destruct (N.eq_dec (idx + N.of_nat (length (b :: bs))) size) as [Hi|Hi]; [|right; exact Hi]. left.
+      cbn [bin_reads a_index a_size app read_binary]. cbn [length] in Hi, Hn.
+      replace (idx =? size) with false by (symmetry; lia).
+      destruct (IH bs size (idx + 1) r) as [E | E]; [lia | | lia].
+      rewrite E. cbn [firstn skipn map]. do 3 f_equal. lia.
   Qed.
 
-  Lemma bytes_child_go bs n toks : bytes_child bs n = (toks, None, true) ->
-    n = length bs /\ toks = KOpen :: map KByte bs ++ [KClose].
+  Lemma bin_child_run n bs pn : (n <= length bs)%nat ->
+    exists ast cp, bin_reads n (mkA (N.of_nat (length bs)) 0) (bs ++ pn) = (map KByte (firstn n bs), Go ast cp) /\
+      close_bin ast cp = CDone pn false.
+  Proof.
+    intros Hn. destruct (bin_reads_prefix n bs (N.of_nat (length bs)) 0 pn Hn) as [E | E]; [|lia].
+    eexists _, _. split; [exact E|].
+    unfold close_bin. cbn [a_size a_index].
+    rewrite (take_app_n _ (skipn n bs) pn); [reflexivity|]. rewrite skipn_length. lia.
+  Qed.
+
+  Lemma bytes_child_go bs n toks c : bytes_child bs n = (toks, None, c) ->
+    (n <= length bs)%nat /\ toks = KOpen :: map KByte (firstn n bs) ++ [KClose].
   Proof.
     unfold bytes_child. destruct (n <=? length bs)%nat eqn:E; intros H; [|discriminate].
-    injection H as <- Hn. apply Nat.eqb_eq in Hn. subst n. rewrite firstn_all. split; reflexivity.
+    injection H as <- _. apply Nat.leb_le in E. split; [exact E | reflexivity].
   Qed.
 
   Lemma H_obj q body_reqs : P_reqs body_reqs -> P_req (RObj q body_reqs).
   Proof.
-    intros IH body kvs rend Hb HL Hok st p Hc toks Hs.
+    intros IH body kvs rend Hb HL Hok st p Hc toks c Hs.
     destruct (doc_ok_map _ Hok) as [Hsup [Hdist Hvals]].
     destruct (find_spec narrow widen o body kvs rend Hb HL Hsup Hdist q st p Hc) as [b [st1 [p1 [Ef Hres]]]].
     rewrite run_req_obj, Ef. rewrite spec_req_obj in Hs.
     destruct (lookup (key_of_q q) kvs) as [v|].
-    2:{ destruct Hres as [-> [Hc' _]]. cbn [lift_find]. injection Hs as <-. eexists _, _. split; [reflexivity | exact Hc']. }
+    2:{ destruct Hres as [-> [Hc' _]]. cbn [lift_find]. injection Hs as <- _. eexists _, _. split; [reflexivity | exact Hc']. }
     destruct Hres as [-> [pn HM]]. cbn [lift_find].
     destruct (at_member_facts body kvs rend Hb _ _ _ _ HM) as [Hv [Hbp [_ [Hin _]]]].
     pose proof (after_member narrow widen body kvs rend _ _ _ _ HM) as Hc'.
     pose proof (read_map_size_on o p1 v pn Hbp Hv) as Hsz.
     destruct v.
     9:{ (* a map *)
-      apply child_go in Hs. destruct Hs as [t [Hs [-> _]]].
-      destruct (child_obj_run body_reqs p1 l pn t IH Hbp Hv (Hvals _ Hin) Hs) as [bodyc [cst [cp [Hr [Hrun Hcl]]]]].
-      rewrite Hr, Hrun. cbn [after_child_obj wrap_child is_go]. rewrite Hcl.
+      apply child_go in Hs. destruct Hs as [t [c' [Hs ->]]].
+      destruct (child_obj_run body_reqs p1 l pn t c' IH Hbp Hv (Hvals _ Hin) Hs) as [bodyc [cst [cp [Hr [Hrun Hcl]]]]].
+      rewrite Hr, Hrun. unfold with_child, after_child_obj, after_child. cbn [wrap_child is_go]. rewrite Hcl. cbn [orb].
       eexists _, _. split; [reflexivity | exact Hc']. }
     all: apply not_container_go in Hs; destruct Hs as [-> Hnt]; rewrite Hsz, Hnt;
          eexists _, _; (split; [reflexivity | exact Hc']).
@@ -320,21 +350,21 @@ Section Refine.
 
   Lemma H_arr q body_reqs : P_areqs body_reqs -> P_req (RArr q body_reqs).
   Proof.
-    intros IH body kvs rend Hb HL Hok st p Hc toks Hs.
+    intros IH body kvs rend Hb HL Hok st p Hc toks c Hs.
     destruct (doc_ok_map _ Hok) as [Hsup [Hdist Hvals]].
     destruct (find_spec narrow widen o body kvs rend Hb HL Hsup Hdist q st p Hc) as [b [st1 [p1 [Ef Hres]]]].
     rewrite run_req_arr, Ef. rewrite spec_req_arr in Hs.
     destruct (lookup (key_of_q q) kvs) as [v|].
-    2:{ destruct Hres as [-> [Hc' _]]. cbn [lift_find]. injection Hs as <-. eexists _, _. split; [reflexivity | exact Hc']. }
+    2:{ destruct Hres as [-> [Hc' _]]. cbn [lift_find]. injection Hs as <- _. eexists _, _. split; [reflexivity | exact Hc']. }
     destruct Hres as [-> [pn HM]]. cbn [lift_find].
     destruct (at_member_facts body kvs rend Hb _ _ _ _ HM) as [Hv [Hbp [_ [Hin _]]]].
     pose proof (after_member narrow widen body kvs rend _ _ _ _ HM) as Hc'.
     pose proof (read_array_size_on o p1 v pn Hbp Hv) as Hsz.
     destruct v.
-    8:{ (* an array *)
-      apply spec_arr_child_go in Hs. destruct Hs as [t [Hs ->]].
-      destruct (child_arr_run body_reqs p1 l pn t IH Hbp Hv (Hvals _ Hin) Hs) as [bodyc [ast [Hr Hrun]]].
-      rewrite Hr, Hrun. cbn [after_child_plain wrap_child is_go].
+    8:{ (* an array: whatever the child leaves unread is skipped by its destructor *)
+      apply spec_arr_child_go in Hs. destruct Hs as [t [c' [vs' [Hs ->]]]].
+      destruct (child_arr_run body_reqs p1 l pn t c' vs' IH Hbp Hv (Hvals _ Hin) Hs) as [bodyc [ast [cp [Hr [Hrun Hcl]]]]].
+      rewrite Hr, Hrun. unfold with_child, after_child_arr, after_child. cbn [wrap_child is_go]. rewrite Hcl. cbn [orb].
       eexists _, _. split; [reflexivity | exact Hc']. }
     all: apply not_container_go in Hs; destruct Hs as [-> Hnt]; rewrite Hsz, Hnt;
          eexists _, _; (split; [reflexivity | exact Hc']).
@@ -350,12 +380,12 @@ Section Refine.
   (* OpenBinaryScope(key) *)
   Lemma H_bin q n : P_req (RBin q n).
   Proof.
-    intros body kvs rend Hb HL Hok st p Hc toks Hs.
+    intros body kvs rend Hb HL Hok st p Hc toks c Hs.
     destruct (doc_ok_map _ Hok) as [Hsup [Hdist Hvals]].
     destruct (find_spec narrow widen o body kvs rend Hb HL Hsup Hdist q st p Hc) as [b [st1 [p1 [Ef Hres]]]].
     cbn [MpScopeModel.run_req]. rewrite Ef. cbn [MpScopeSpec.spec_req] in Hs.
     destruct (lookup (key_of_q q) kvs) as [v|].
-    2:{ destruct Hres as [-> [Hc' _]]. cbn [lift_find]. injection Hs as <-. eexists _, _. split; [reflexivity | exact Hc']. }
+    2:{ destruct Hres as [-> [Hc' _]]. cbn [lift_find]. injection Hs as <- _. eexists _, _. split; [reflexivity | exact Hc']. }
     destruct Hres as [-> [pn HM]]. cbn [lift_find].
     destruct (at_member_facts body kvs rend Hb _ _ _ _ HM) as [Hv [Hbp _]].
     destruct (value_type_sound p1 v pn Hbp Hv) as [t [Ht HT]]. rewrite Ht.
@@ -364,11 +394,11 @@ Section Refine.
     destruct v.
     7:{ (* a byte array *)
       subst t. destruct Hsz as [bodyc [Hr ->]]. rewrite Hr.
-      apply bytes_child_go in Hs. destruct Hs as [-> ->].
-      rewrite (bin_reads_all s (N.of_nat (length s)) 0 pn (N.add_0_l _)).
-      cbn [after_child_plain wrap_child is_go].
+      apply bytes_child_go in Hs. destruct Hs as [Hn ->].
+      destruct (bin_child_run n s pn Hn) as [ast [cp [Hrun Hcl]]]. rewrite Hrun.
+      unfold with_child, plain, after_child_bin, after_child. cbn [fst snd wrap_child is_go]. rewrite Hcl. cbn [orb].
       eexists _, _. split; [reflexivity|]. exact (after_member narrow widen body kvs rend _ _ _ _ HM). }
-    all: injection Hs as <-; destruct t; try congruence;
+    all: injection Hs as <- _; destruct t; try congruence;
          eexists _, _; (split; [reflexivity | exact (C_key body kvs rend _ _ _ _ HM)]).
   Qed.
 
@@ -379,14 +409,14 @@ Section Refine.
     intros [kvs1 kvs2 p0 E H1 H2 | st0 p0 vm pn HM].
     - eexists _, _. split; [reflexivity|]. repeat split.
     - destruct HM as [kvs1 km vm0 kvs2 pk p1 pn0 sk0 E H1 Hk Hv0 H2 Hkd Hok].
-      unfold reset_key. cbn [o_key]. rewrite (skip_exact _ _ _ Hv0). eexists _, _. split; [reflexivity|]. repeat split.
+      unfold reset_key. cbn [o_key]. rewrite (skip_at_exact _ _ _ Hv0). eexists _, _. split; [reflexivity|]. repeat split.
   Qed.
 
   Lemma H_visit : P_req RVisit.
   Proof.
-    intros body kvs rend Hb HL Hok st p Hc toks Hs.
+    intros body kvs rend Hb HL Hok st p Hc toks c Hs.
     destruct (doc_ok_map _ Hok) as [Hsup [Hdist Hvals]].
-    cbn [MpScopeSpec.spec_req] in Hs. injection Hs as <-.
+    cbn [MpScopeSpec.spec_req] in Hs. injection Hs as <- _.
     destruct (reset_key_go body kvs rend st p Hc) as [st1 [p1 [Hr [Hst [Hsz Hk]]]]].
     cbn [MpScopeModel.run_req]. rewrite Hr. destruct st1 as [s0 z0 i0 k0]. cbn [o_start o_size o_key] in *. subst s0 z0 k0.
     unfold set_index. cbn [o_start o_size o_key].
@@ -401,51 +431,44 @@ Section Refine.
   (* ---------- array scope ---------- *)
   Lemma A_nil : P_areqs ANil.
   Proof.
-    intros vs rend p Hb HL Hok size idx Hi toks vs' Hs. cbn [MpScopeSpec.spec_areqs] in Hs. injection Hs as <- <-.
+    intros vs rend p Hb HL Hok size idx Hi toks c vs' Hs. cbn [MpScopeSpec.spec_areqs] in Hs. injection Hs as <- _ <-.
     exists idx, p. split; [reflexivity|]. repeat split; assumption.
   Qed.
 
   Lemma A_cons a l : P_areq a -> P_areqs l -> P_areqs (ACons a l).
   Proof.
-    intros IHa IHl vs rend p Hb HL Hok size idx Hi toks vs' Hs. rewrite spec_areqs_cons in Hs.
+    intros IHa IHl vs rend p Hb HL Hok size idx Hi toks c vs' Hs. rewrite spec_areqs_cons in Hs.
     destruct (spec_areq vs a) as [[[t1 e1] c1] vs1] eqn:E1. destruct e1 as [e1|]; [discriminate Hs|].
-    destruct (spec_areqs vs1 l) as [[[t2 e2] c2] vs2] eqn:E2. injection Hs as <- -> Hcc <-.
-    apply andb_true_iff in Hcc. destruct Hcc as [-> ->].
-    destruct (IHa vs rend p Hb HL Hok size idx Hi t1 vs1 E1) as [idx1 [p1 [R1 [Hb1 [HL1 [Hok1 Hi1]]]]]].
-    destruct (IHl vs1 rend p1 Hb1 HL1 Hok1 size idx1 Hi1 t2 vs2 E2) as [idx2 [p2 [R2 [Hb2 [HL2 [Hok2 Hi2]]]]]].
+    destruct (spec_areqs vs1 l) as [[[t2 e2] c2] vs2] eqn:E2. injection Hs as <- -> _ <-.
+    destruct (IHa vs rend p Hb HL Hok size idx Hi t1 c1 vs1 E1) as [idx1 [p1 [R1 [Hb1 [HL1 [Hok1 Hi1]]]]]].
+    destruct (IHl vs1 rend p1 Hb1 HL1 Hok1 size idx1 Hi1 t2 c2 vs2 E2) as [idx2 [p2 [R2 [Hb2 [HL2 [Hok2 Hi2]]]]]].
     exists idx2, p2. split; [|repeat split; assumption]. rewrite run_areqs_cons, R1, R2. reflexivity.
   Qed.
 
   Lemma A_end : P_areq AEnd.
   Proof.
-    intros vs rend p Hb HL Hok size idx Hi toks vs' Hs. cbn [MpScopeSpec.spec_areq] in Hs. injection Hs as <- <-.
+    intros vs rend p Hb HL Hok size idx Hi toks c vs' Hs. cbn [MpScopeSpec.spec_areq] in Hs. injection Hs as <- _ <-.
     exists idx, p. split; [|repeat split; assumption].
-    cbn [MpScopeModel.run_areq a_index a_size]. destruct vs; cbn [length] in Hi; do 3 f_equal; lia.
+    cbn [MpScopeModel.run_areq a_index a_size].
+    destruct vs; cbn [length] in Hi; [replace (idx =? size) with true by (symmetry; lia) | replace (idx =? size) with false by (symmetry; lia)]; reflexivity.
   Qed.
-
-  Ltac array_step vs Hs HL Hok Hi v vs0 p' Hv HL' Hokv Hok' Hne :=
-    destruct vs as [|v vs0]; [cbn [MpScopeSpec.spec_areq] in Hs; discriminate Hs|];
-    inversion HL as [|? ? p' ? ? Hv HL']; subst;
-    inversion Hok as [|? ? Hokv Hok']; subst;
-    cbn [length] in Hi;
-    assert (Hne : (_ =? _) = false) by (apply N.eqb_neq; intros ->; lia).
 
   Lemma A_get t : P_areq (AGet t).
   Proof.
-    intros vs rend p Hb HL Hok size idx Hi toks vs' Hs.
+    intros vs rend p Hb HL Hok size idx Hi toks c vs' Hs.
     destruct vs as [|v vs0]; [cbn [MpScopeSpec.spec_areq] in Hs; discriminate Hs|].
     inversion HL as [|? ? p' ? ? Hv HL']; subst. inversion Hok as [|? ? Hokv Hok']; subst. cbn [length] in *.
     cbn [MpScopeSpec.spec_areq] in Hs. injection Hs as Hs <-.
     cbn [MpScopeModel.run_areq a_index a_size]. replace (idx =? idx + N.of_nat (S (length vs0))) with false by (symmetry; lia).
     rewrite (read_target_on narrow widen o t p v p' Hb Hv).
     pose proof (decode_bytes _ _ _ Hv Hb) as Hb'.
-    destruct (of_tres_go _ _ Hs) as [[x [-> ->]] | [-> ->]]; cbn [rres_of_tres];
+    destruct (of_tres_go _ _ _ Hs) as [[x [-> ->]] | [-> ->]]; cbn [rres_of_tres];
       exists (idx + 1), p'; (split; [reflexivity | repeat split; try assumption; lia]).
   Qed.
 
   Lemma A_obj body_reqs : P_reqs body_reqs -> P_areq (AObj body_reqs).
   Proof.
-    intros IH vs rend p Hb HL Hok size idx Hi toks vs' Hs.
+    intros IH vs rend p Hb HL Hok size idx Hi toks c vs' Hs.
     destruct vs as [|v vs0]; [cbn [MpScopeSpec.spec_areq] in Hs; discriminate Hs|].
     inversion HL as [|? ? p' ? ? Hv HL']; subst. inversion Hok as [|? ? Hokv Hok']; subst. cbn [length] in *.
     rewrite spec_areq_obj in Hs.
@@ -453,9 +476,9 @@ Section Refine.
     pose proof (decode_bytes _ _ _ Hv Hb) as Hb'.
     pose proof (read_map_size_on o p v p' Hb Hv) as Hsz.
     destruct v.
-    9:{ injection Hs as Hs <-. apply child_go in Hs. destruct Hs as [t [Hs [-> _]]].
-        destruct (child_obj_run body_reqs p l p' t IH Hb Hv Hokv Hs) as [bodyc [cst [cp [Hr [Hrun Hcl]]]]].
-        rewrite Hr, Hrun. cbn [after_child_obj wrap_child is_go]. rewrite Hcl.
+    9:{ injection Hs as Hs <-. apply child_go in Hs. destruct Hs as [t [c' [Hs ->]]].
+        destruct (child_obj_run body_reqs p l p' t c' IH Hb Hv Hokv Hs) as [bodyc [cst [cp [Hr [Hrun Hcl]]]]].
+        rewrite Hr, Hrun. unfold with_child, after_child_obj, after_child. cbn [wrap_child is_go]. rewrite Hcl. cbn [orb].
         exists (idx + 1), p'. split; [reflexivity | repeat split; try assumption; lia]. }
     all: pose proof (f_equal snd Hs) as Hs2; apply (f_equal fst) in Hs; cbn [fst snd] in Hs, Hs2; subst vs';
          apply not_container_go in Hs; destruct Hs as [-> Hnt]; rewrite Hsz, Hnt;
@@ -464,7 +487,7 @@ Section Refine.
 
   Lemma A_arr body_reqs : P_areqs body_reqs -> P_areq (AArr body_reqs).
   Proof.
-    intros IH vs rend p Hb HL Hok size idx Hi toks vs' Hs.
+    intros IH vs rend p Hb HL Hok size idx Hi toks c vs' Hs.
     destruct vs as [|v vs0]; [cbn [MpScopeSpec.spec_areq] in Hs; discriminate Hs|].
     inversion HL as [|? ? p' ? ? Hv HL']; subst. inversion Hok as [|? ? Hokv Hok']; subst. cbn [length] in *.
     rewrite spec_areq_arr in Hs.
@@ -473,9 +496,9 @@ Section Refine.
     pose proof (read_array_size_on o p v p' Hb Hv) as Hsz.
     destruct v.
     8:{ destruct (spec_areqs l body_reqs) as [r' lft] eqn:Er. injection Hs as Hs <-.
-        apply child_go in Hs. destruct Hs as [t [-> [-> Hl]]]. destruct lft; [|discriminate].
-        destruct (child_arr_run body_reqs p l p' t IH Hb Hv Hokv Er) as [bodyc [ast [Hr Hrun]]].
-        rewrite Hr, Hrun. cbn [after_child_plain wrap_child is_go].
+        apply child_go in Hs. destruct Hs as [t [c' [-> ->]]].
+        destruct (child_arr_run body_reqs p l p' t c' lft IH Hb Hv Hokv Er) as [bodyc [ast [cp [Hr [Hrun Hcl]]]]].
+        rewrite Hr, Hrun. unfold with_child, after_child_arr, after_child. cbn [wrap_child is_go]. rewrite Hcl. cbn [orb].
         exists (idx + 1), p'. split; [reflexivity | repeat split; try assumption; lia]. }
     all: pose proof (f_equal snd Hs) as Hs2; apply (f_equal fst) in Hs; cbn [fst snd] in Hs, Hs2; subst vs';
          apply not_container_go in Hs; destruct Hs as [-> Hnt]; rewrite Hsz, Hnt;
@@ -484,7 +507,7 @@ Section Refine.
 
   Lemma A_bin n : P_areq (ABin n).
   Proof.
-    intros vs rend p Hb HL Hok size idx Hi toks vs' Hs.
+    intros vs rend p Hb HL Hok size idx Hi toks c vs' Hs.
     destruct vs as [|v vs0]; [cbn [MpScopeSpec.spec_areq] in Hs; discriminate Hs|].
     inversion HL as [|? ? p' ? ? Hv HL']; subst. inversion Hok as [|? ? Hokv Hok']; subst. cbn [length] in *.
     cbn [MpScopeSpec.spec_areq] in Hs.
@@ -495,11 +518,11 @@ Section Refine.
     pose proof (read_bin_size_on o p v p' Hv) as Hsz.
     destruct v.
     7:{ subst t. destruct Hsz as [bodyc [Hr ->]]. rewrite Hr. injection Hs as Hs <-.
-        apply bytes_child_go in Hs. destruct Hs as [-> ->].
-        rewrite (bin_reads_all s (N.of_nat (length s)) 0 p' (N.add_0_l _)).
-        cbn [after_child_plain wrap_child is_go].
+        apply bytes_child_go in Hs. destruct Hs as [Hn ->].
+        destruct (bin_child_run n s p' Hn) as [ast [cp [Hrun Hcl]]]. rewrite Hrun.
+        unfold with_child, plain, after_child_bin, after_child. cbn [fst snd wrap_child is_go]. rewrite Hcl. cbn [orb].
         exists (idx + 1), p'. split; [reflexivity | repeat split; try assumption; lia]. }
-    all: injection Hs as <- <-; destruct t; try congruence;
+    all: injection Hs as <- _ <-; destruct t; try congruence;
          exists idx, p; (split; [reflexivity | repeat split; try assumption; try (constructor; assumption); cbn [length]; lia]).
   Qed.
 
@@ -531,49 +554,75 @@ Section Roots.
   Variable widen : N -> N.
   Variable o : opts.
 
-  Lemma obj_root_refines data kvs rest h toks :
+  (* EVERY error-free history on EVERY well-formed object document, any trailing data; no scope on the
+     way fails to skip its rest (the flag stays clear), so Finalize() has nothing to report *)
+  Lemma obj_root_refines data kvs rest h toks c :
     bytes data -> decode data = Some (MMap kvs, rest) -> doc_ok (MMap kvs) = true ->
-    spec_reqs narrow widen o kvs h = (toks, None, true) ->
-    run_obj_root narrow widen o data h = Done (KOpen :: toks ++ [KClose]) rest.
+    spec_reqs narrow widen o kvs h = (toks, None, c) ->
+    run_obj_root narrow widen o data h = Done (KOpen :: toks ++ [KClose]) rest false.
   Proof.
     intros Hb Hd Hok Hs.
     destruct (programs_refine narrow widen o) as [_ [Hreqs _]].
-    destruct (child_obj_run narrow widen o h data kvs rest toks (Hreqs h) Hb Hd Hok Hs) as [bodyc [cst [cp [Hr [Hrun Hcl]]]]].
-    unfold run_obj_root. rewrite Hr, Hrun. unfold finish_root_obj. cbn [after_child_obj]. rewrite Hcl. reflexivity.
+    destruct (child_obj_run narrow widen o h data kvs rest toks c (Hreqs h) Hb Hd Hok Hs) as [bodyc [cst [cp [Hr [Hrun Hcl]]]]].
+    unfold run_obj_root. rewrite Hr, Hrun. unfold with_child, after_child_obj, after_child. rewrite Hcl. reflexivity.
   Qed.
 
-  Lemma arr_root_refines data vs rest h toks :
+  (* the same for a root array, read to the end or not *)
+  Lemma arr_root_refines data vs rest h toks c vs' :
     bytes data -> decode data = Some (MArr vs, rest) -> doc_ok (MArr vs) = true ->
-    spec_areqs narrow widen o vs h = ((toks, None, true), []) ->
-    run_arr_root narrow widen o data h = Done (KOpen :: toks ++ [KClose]) rest.
+    spec_areqs narrow widen o vs h = ((toks, None, c), vs') ->
+    run_arr_root narrow widen o data h = Done (KOpen :: toks ++ [KClose]) rest false.
   Proof.
     intros Hb Hd Hok Hs.
     destruct (programs_refine narrow widen o) as [_ [_ [_ Hareqs]]].
-    destruct (child_arr_run narrow widen o h data vs rest toks (Hareqs h) Hb Hd Hok Hs) as [bodyc [ast [Hr Hrun]]].
-    unfold run_arr_root. rewrite Hr, Hrun. reflexivity.
+    destruct (child_arr_run narrow widen o h data vs rest toks c vs' (Hareqs h) Hb Hd Hok Hs) as [bodyc [ast [cp [Hr [Hrun Hcl]]]]].
+    unfold run_arr_root. rewrite Hr, Hrun. unfold with_child, after_child_arr, after_child. rewrite Hcl. reflexivity.
   Qed.
 
+  (* LoadObject = the program, then Finalize() *)
+  Lemma load_obj_refines data kvs rest h toks c :
+    bytes data -> decode data = Some (MMap kvs, rest) -> doc_ok (MMap kvs) = true ->
+    spec_reqs narrow widen o kvs h = (toks, None, c) ->
+    load_obj narrow widen o data h = LOk (KOpen :: toks ++ [KClose]) rest.
+  Proof. intros Hb Hd Hok Hs. unfold load_obj. rewrite (obj_root_refines data kvs rest h toks c Hb Hd Hok Hs). reflexivity. Qed.
+
+  (* a scope that could not skip its rest on the way: whatever the program observed, the load fails *)
+  Lemma close_failure_reported_obj data h toks rest :
+    run_obj_root narrow widen o data h = Done toks rest true ->
+    load_obj narrow widen o data h = LErr toks (SE EParse).
+  Proof. intros H. unfold load_obj. rewrite H. reflexivity. Qed.
+
+  Lemma close_failure_reported_arr data h toks rest :
+    run_arr_root narrow widen o data h = Done toks rest true ->
+    load_arr narrow widen o data h = LErr toks (SE EParse).
+  Proof. intros H. unfold load_arr. rewrite H. reflexivity. Qed.
+
+  (* the flag of a child scope: set exactly when its destructor's catch block was entered, and never lost *)
+  Lemma with_child_flag {C P} (close : C -> list N -> cres) (notify : P -> P) (pst : P) t cst cp f1 r f2 :
+    close cst cp = CDone r f2 ->
+    with_child (after_child close notify pst) (t, Go cst cp, f1) = (KOpen :: t ++ [KClose], Go (notify pst) r, f1 || f2).
+  Proof. intros H. unfold with_child, after_child. rewrite H. reflexivity. Qed.
+
   (* the array scope: whatever the element reads and child scopes, mIndex counts the elements consumed
-     and the reader stands at the start of element mIndex *)
-  Lemma arr_scope_counts data vs rest l toks vs' :
+     and the reader stands at the start of element mIndex; the destructor then passes the rest *)
+  Lemma arr_scope_counts data vs rest l toks c vs' :
     bytes data -> decode data = Some (MArr vs, rest) -> doc_ok (MArr vs) = true ->
-    spec_areqs narrow widen o vs l = ((toks, None, true), vs') ->
+    spec_areqs narrow widen o vs l = ((toks, None, c), vs') ->
     exists body idx p,
       read_array_size o data = ROk (N.of_nat (length vs)) body /\
-      run_areqs narrow widen o l (mkA (N.of_nat (length vs)) 0) body = (toks, Go (mkA (N.of_nat (length vs)) idx) p) /\
-      idx + N.of_nat (length vs') = N.of_nat (length vs) /\ alayout p vs' rest.
+      run_areqs narrow widen o l (mkA (N.of_nat (length vs)) 0) body = (toks, Go (mkA (N.of_nat (length vs)) idx) p, false) /\
+      idx + N.of_nat (length vs') = N.of_nat (length vs) /\ alayout p vs' rest /\
+      close_arr (mkA (N.of_nat (length vs)) idx) p = CDone rest false.
   Proof.
     intros Hb Hd Hok Hs.
     destruct (programs_refine narrow widen o) as [_ [_ [_ Hareqs]]].
     destruct (read_array_size_on o data _ rest Hb Hd) as [body [Hr [HL Hsuf]]].
     pose proof (suffix_bytes _ _ Hsuf Hb) as Hbb.
-    destruct (Hareqs l vs rest body Hbb HL (doc_ok_arr _ Hok) (N.of_nat (length vs)) 0 (N.add_0_l _) toks vs' Hs)
+    destruct (Hareqs l vs rest body Hbb HL (doc_ok_arr _ Hok) (N.of_nat (length vs)) 0 (N.add_0_l _) toks c vs' Hs)
       as [idx [p [Hrun [_ [HL' [_ Hi]]]]]].
-    exists body, idx, p. repeat split; assumption.
+    exists body, idx, p. repeat split; try assumption. eapply close_arr_spec; eassumption.
   Qed.
 
-  (* FindValueByKey keeps the invariant; an unsuccessful search from a cursor without current key
-     comes back to the member it started from (to the end of the object when it started at member 0) *)
   Lemma find_keeps_cursor body kvs rend q st p :
     bytes body -> olayout body kvs rend -> supported kvs -> keys_distinct (keys_of kvs) = true ->
     cursor body kvs rend st p ->
@@ -609,13 +658,94 @@ Section Roots.
     unfold find_value_by_key. subst st. cbn [o_key o_start]. rewrite Ef.
     destruct kvs1; reflexivity.
   Qed.
+
+  Lemma requests_keep_cursor r body kvs rend :
+    bytes body -> olayout body kvs rend -> doc_ok (MMap kvs) = true ->
+    forall st p, cursor body kvs rend st p ->
+    forall toks c, spec_req narrow widen o kvs r = (toks, None, c) ->
+    exists st' p', run_req narrow widen o r st p = (toks, Go st' p', false) /\ cursor body kvs rend st' p'.
+  Proof. exact (proj1 (programs_refine narrow widen o) r body kvs rend). Qed.
 End Roots.
 
-(* element reads only *)
+Lemma cursor_bounds body kvs rend st p : cursor body kvs rend st p ->
+  o_index st <= o_size st /\ o_start st = body /\ o_size st = N.of_nat (length kvs).
+Proof. apply cursor_index. Qed.
+
+(* ---------- the destructors on ARBITRARY input: fuel, and where std::terminate is still possible ---------- *)
+Lemma close_loop_total : forall fuel c size rest, (length rest < fuel)%nat -> exists r f, close_loop fuel c size rest = CDone r f.
+Proof.
+  induction fuel as [|f IH]; intros c size rest Hf; [lia|]. cbn [close_loop].
+  destruct (c <? size); [|eexists _, _; reflexivity].
+  destruct (skip_at rest) as [r1|e p|] eqn:E1; [|eexists _, _; reflexivity | exfalso; exact (skip_at_no_fuel _ E1)].
+  destruct (skip_at r1) as [r2|e p|] eqn:E2; [|eexists _, _; reflexivity | exfalso; exact (skip_at_no_fuel _ E2)].
+  apply IH. apply skip_at_progress in E1. apply skip_at_progress in E2. lia.
+Qed.
+
+Lemma arr_close_loop_total : forall fuel idx size rest, (length rest < fuel)%nat -> exists r f, arr_close_loop fuel idx size rest = CDone r f.
+Proof.
+  induction fuel as [|f IH]; intros idx size rest Hf; [lia|]. cbn [arr_close_loop].
+  destruct (idx <? size); [|eexists _, _; reflexivity].
+  destruct (skip_at rest) as [r1|e p|] eqn:E1; [|eexists _, _; reflexivity | exfalso; exact (skip_at_no_fuel _ E1)].
+  apply IH. apply skip_at_progress in E1. lia.
+Qed.
+
+(* ~CMsgPackReadArrayScope and ~CMsgPackReadBinaryScope: on every state and every input they return *)
+Lemma close_arr_total st rest : exists r f, close_arr st rest = CDone r f.
+Proof. apply arr_close_loop_total. lia. Qed.
+Lemma close_bin_total st rest : exists r f, close_bin st rest = CDone r f.
+Proof. unfold close_bin. destruct (take _ rest) as [[x r]|]; eexists _, _; reflexivity. Qed.
+
+(* ~CMsgPackReadObjectScope (ResetKey() inside the try block since 3580349): it returns on EVERY state and input *)
+Lemma close_obj_total st rest : exists r f, close_obj st rest = CDone r f.
+Proof.
+  unfold close_obj, reset_key. destruct (o_key st) as [k|].
+  - destruct (skip_at rest) as [r|e p|] eqn:E.
+    + apply close_loop_total. lia.
+    + eexists _, _. reflexivity.
+    + exfalso. exact (skip_at_no_fuel _ E).
+  - apply close_loop_total. lia.
+Qed.
+
+Definition no_narrow : N -> option N := fun _ => None.
+Definition id_widen : N -> N := fun x => x.
+Definition skip_all : opts := mkOpts PSkip PSkip.
+Definition s32 : ity := mkIty true 32.
+
+(* the witnesses of what 0863f96 had left of F17 (ResetKey() before the try block): an exception now *)
+Definition term_doc : list N := [0x81; 0xA1; 0x61].
+Definition term_prog : reqs := RCons (RArr (QStr [0x61]) ANil) RNil.
+Lemma term_repaired : run_obj_root no_narrow id_widen skip_all term_doc term_prog = Failed [KOpen] (SE EParse).
+Proof. vm_compute. reflexivity. Qed.
+
+(* {"a": str8 of 5 bytes, 1 present}: OpenBinaryScope("a") declines and leaves the key current; the
+   destructor's ResetKey() cannot skip the truncated string: swallowed, the reader stays behind the header byte *)
+Definition term_doc2 : list N := [0x81; 0xA1; 0x61; 0xD9; 0x05; 0x01].
+Definition term_prog2 : reqs := RCons (RBin (QStr [0x61]) 1) RNil.
+Lemma term_repaired2 : run_obj_root no_narrow id_widen skip_all term_doc2 term_prog2 = Done [KOpen; KNone; KClose] [0x05; 0x01] true.
+Proof. vm_compute. reflexivity. Qed.
+
+(* the former witnesses of F17 and F14 *)
+Lemma f17_repaired : run_obj_root no_narrow id_widen skip_all [0x81] RNil = Done [KOpen; KClose] [] true.
+Proof. vm_compute. reflexivity. Qed.
+
+Definition f14_doc : list N := [0x82; 0xA1; 0x61; 0x92; 0x01; 0x02; 0xA1; 0x62; 0x05; 0x07].
+Definition f14_prog : reqs :=
+  RCons (RArr (QStr [0x61]) (ACons (AGet (TgInt s32)) ANil)) (RCons (RGet (QStr [0x62]) (TgInt s32)) RNil).
+Lemma f14_decodes : decode f14_doc = Some (MMap [(MStr [0x61], MArr [MInt 1; MInt 2]); (MStr [0x62], MInt 5)], [0x07]).
+Proof. vm_compute. reflexivity. Qed.
+Lemma f14_spec : spec_reqs no_narrow id_widen skip_all [(MStr [0x61], MArr [MInt 1; MInt 2]); (MStr [0x62], MInt 5)] f14_prog =
+  ([KOpen; KVal (VInt 1); KClose; KVal (VInt 5)], None, false).
+Proof. vm_compute. reflexivity. Qed.
+Lemma f14_bytes : bytes f14_doc.
+Proof. unfold f14_doc. repeat constructor. Qed.
+Lemma f14_repaired : run_obj_root no_narrow id_widen skip_all f14_doc f14_prog =
+  Done (KOpen :: [KOpen; KVal (VInt 1); KClose; KVal (VInt 5)] ++ [KClose]) [0x07] false.
+Proof. exact (obj_root_refines no_narrow id_widen skip_all f14_doc _ _ f14_prog _ _ f14_bytes f14_decodes eq_refl f14_spec). Qed.
+
+(* ---------- element reads under the Skip policies ---------- *)
 Fixpoint gets (ts : list target) : areqs :=
   match ts with [] => ANil | t :: ts' => ACons (AGet t) (gets ts') end.
 
-(* ---------- element reads under the Skip policies ---------- *)
 (* the one typed read that fails whatever the policy: a timestamp target on a timestamp extension of an invalid size *)
 Definition bad_ts (t : target) (v : mpv) : bool :=
   match t, v with
@@ -649,74 +779,6 @@ Proof.
     rewrite (IH vs) by (cbn [length] in Hl; try lia; exact Hb2). reflexivity.
 Qed.
 
-(* ---------- witnesses of the defects the model mirrors ---------- *)
-Definition no_narrow : N -> option N := fun _ => None.
-Definition id_widen : N -> N := fun x => x.
-Definition skip_all : opts := mkOpts PSkip PSkip.
-Definition s32 : ity := mkIty true 32.
-
-(* F14: {"a": [1, 2], "b": 5} followed by 7; the program reads one element of "a", then asks for "b" *)
-Definition f14_doc : list N := [0x82; 0xA1; 0x61; 0x92; 0x01; 0x02; 0xA1; 0x62; 0x05; 0x07].
-Definition f14_prog : reqs :=
-  RCons (RArr (QStr [0x61]) (ACons (AGet (TgInt s32)) ANil)) (RCons (RGet (QStr [0x62]) (TgInt s32)) RNil).
-
-Lemma f14_decodes : decode f14_doc = Some (MMap [(MStr [0x61], MArr [MInt 1; MInt 2]); (MStr [0x62], MInt 5)], [0x07]).
-Proof. vm_compute. reflexivity. Qed.
-Lemma f14_spec : spec_reqs no_narrow id_widen skip_all [(MStr [0x61], MArr [MInt 1; MInt 2]); (MStr [0x62], MInt 5)] f14_prog =
-  ([KOpen; KVal (VInt 1); KClose; KVal (VInt 5)], None, false).
-Proof. vm_compute. reflexivity. Qed.
-Lemma f14_model : run_obj_root no_narrow id_widen skip_all f14_doc f14_prog =
-  Done [KOpen; KOpen; KVal (VInt 1); KClose; KFalse; KClose] [0x07].
-Proof. vm_compute. reflexivity. Qed.
-Lemma f14_bytes : bytes f14_doc.
-Proof. unfold f14_doc. repeat constructor. Qed.
-
-(* F17: a map header announcing one member, and nothing else *)
-Lemma f17_model : run_obj_root no_narrow id_widen skip_all [0x81] RNil = FTerm.
-Proof. vm_compute. reflexivity. Qed.
-
-(* ---------- the statements of Properties_C03 that the current code falsifies ---------- *)
-(* full strength: EVERY history on EVERY well-formed object document is answered as the association
-   list answers it, and after the scope is destroyed the reader stands right behind the object *)
-Definition C03_mp_refines_statement : Prop :=
-  forall narrow widen o data kvs rest h toks c,
-    bytes data -> decode data = Some (MMap kvs, rest) -> doc_ok (MMap kvs) = true ->
-    spec_reqs narrow widen o kvs h = (toks, None, c) ->
-    run_obj_root narrow widen o data h = Done (KOpen :: toks ++ [KClose]) rest.
-
-Lemma mp_refines_refuted : ~ C03_mp_refines_statement.
-Proof.
-  intros H.
-  specialize (H no_narrow id_widen skip_all f14_doc _ _ f14_prog _ _ f14_bytes f14_decodes eq_refl f14_spec).
-  rewrite f14_model in H. discriminate H.
-Qed.
-
-(* full strength: destroying an object scope never terminates the process *)
-Definition C03_close_never_terminates_statement : Prop :=
-  forall narrow widen o data h, bytes data -> run_obj_root narrow widen o data h <> FTerm.
-
-Lemma close_truncated_refuted : ~ C03_close_never_terminates_statement.
-Proof.
-  intros H. apply (H no_narrow id_widen skip_all [0x81] RNil); [repeat constructor | exact f17_model].
-Qed.
-
-Lemma close_outside narrow widen o data kvs rest h toks :
-  bytes data -> decode data = Some (MMap kvs, rest) -> doc_ok (MMap kvs) = true ->
-  spec_reqs narrow widen o kvs h = (toks, None, true) ->
-  run_obj_root narrow widen o data h <> FTerm.
-Proof. intros Hb Hd Hok Hs. rewrite (obj_root_refines narrow widen o data kvs rest h toks Hb Hd Hok Hs). discriminate. Qed.
-
-Lemma requests_keep_cursor narrow widen o r body kvs rend :
-  bytes body -> olayout body kvs rend -> doc_ok (MMap kvs) = true ->
-  forall st p, cursor body kvs rend st p ->
-  forall toks, spec_req narrow widen o kvs r = (toks, None, true) ->
-  exists st' p', run_req narrow widen o r st p = (toks, Go st' p') /\ cursor body kvs rend st' p'.
-Proof. exact (proj1 (programs_refine narrow widen o) r body kvs rend). Qed.
-
-Lemma cursor_bounds body kvs rend st p : cursor body kvs rend st p ->
-  o_index st <= o_size st /\ o_start st = body /\ o_size st = N.of_nat (length kvs).
-Proof. apply cursor_index. Qed.
-
 Lemma arr_scope_counts_skip narrow widen o data vs rest ts :
   o_mismatch o = PSkip -> o_overflow o = PSkip ->
   bytes data -> decode data = Some (MArr vs, rest) -> doc_ok (MArr vs) = true ->
@@ -726,17 +788,18 @@ Lemma arr_scope_counts_skip narrow widen o data vs rest ts :
     read_array_size o data = ROk (N.of_nat (length vs)) body /\
     run_areqs narrow widen o (gets ts) (mkA (N.of_nat (length vs)) 0) body =
       (map (fun tv => tok_of_tres (typed_spec narrow widen o (fst tv) (snd tv))) (combine ts vs),
-       Go (mkA (N.of_nat (length vs)) (N.of_nat (length ts))) p) /\
-    alayout p (skipn (length ts) vs) rest.
+       Go (mkA (N.of_nat (length vs)) (N.of_nat (length ts))) p, false) /\
+    alayout p (skipn (length ts) vs) rest /\
+    close_arr (mkA (N.of_nat (length vs)) (N.of_nat (length ts))) p = CDone rest false.
 Proof.
   intros Hm Ho Hb Hd Hok Hl Hnb.
   pose proof (gets_spec_skip narrow widen o Hm Ho ts vs Hl Hnb) as Hs.
-  destruct (arr_scope_counts narrow widen o data vs rest (gets ts) _ _ Hb Hd Hok Hs) as [body [idx [p [Hr [Hrun [Hi HL]]]]]].
-  exists body, p. split; [exact Hr|]. split; [|exact HL].
-  rewrite Hrun. rewrite skipn_length in Hi. do 3 f_equal. lia.
+  destruct (arr_scope_counts narrow widen o data vs rest (gets ts) _ _ _ Hb Hd Hok Hs) as [body [idx [p [Hr [Hrun [Hi [HL Hcl]]]]]]].
+  rewrite skipn_length in Hi. assert (idx = N.of_nat (length ts)) by lia. subst idx.
+  exists body, p. repeat split; assumption.
 Qed.
 
-(* ---------- examples: the hypotheses are satisfiable, the conclusions non-trivial ---------- *)
+(* ---------- examples ---------- *)
 (* {"k": 5, 7: {"x": nil}, "arr": [1, "s"], "b": bin(1,2)} followed by 0x2a *)
 Definition ex_doc : list N :=
   [0x84; 0xA1; 0x6B; 0x05; 0x07; 0x81; 0xA1; 0x78; 0xC0; 0xA3; 0x61; 0x72; 0x72; 0x92; 0x01; 0xA1; 0x73;
@@ -744,10 +807,10 @@ Definition ex_doc : list N :=
 Definition ex_kvs : list (mpv * mpv) :=
   [(MStr [0x6B], MInt 5); (MInt 7, MMap [(MStr [0x78], MNil)]); (MStr [0x61; 0x72; 0x72], MArr [MInt 1; MStr [0x73]]);
    (MStr [0x62], MBin [1; 2])].
-(* requests in reverse order, an absent key, a repeated key, VisitKeys, children read to the end *)
+(* reverse order, a byte array and an array left partly read, an absent key, VisitKeys in a child, a repeated key *)
 Definition ex_prog : reqs :=
-  RCons (RBin (QStr [0x62]) 2)
- (RCons (RArr (QStr [0x61; 0x72; 0x72]) (ACons (AGet (TgInt s32)) (ACons (AGet TgStr) (ACons AEnd ANil))))
+  RCons (RBin (QStr [0x62]) 1)
+ (RCons (RArr (QStr [0x61; 0x72; 0x72]) (ACons (AGet (TgInt s32)) (ACons AEnd ANil)))
  (RCons (RGet (QStr [0x7A]) TgStr)
  (RCons (RObj (QU 7) (RCons RVisit RNil))
  (RCons (RGet (QStr [0x6B]) (TgInt s32))
@@ -760,41 +823,26 @@ Proof. vm_compute. reflexivity. Qed.
 Lemma ex_bytes : bytes ex_doc.
 Proof. unfold ex_doc. repeat constructor. Qed.
 Lemma ex_spec : spec_reqs no_narrow id_widen skip_all ex_kvs ex_prog =
-  ([KOpen; KByte 1; KByte 2; KClose; KOpen; KVal (VInt 1); KVal (VStr [0x73]); KIsEnd true; KClose; KFalse;
-    KOpen; KKeys [KStr [0x78]]; KClose; KVal (VInt 5); KFalse], None, true).
+  ([KOpen; KByte 1; KClose; KOpen; KVal (VInt 1); KIsEnd false; KClose; KFalse;
+    KOpen; KKeys [KStr [0x78]]; KClose; KVal (VInt 5); KFalse], None, false).
 Proof. vm_compute. reflexivity. Qed.
 Lemma ex_run : run_obj_root no_narrow id_widen skip_all ex_doc ex_prog =
-  Done (KOpen :: [KOpen; KByte 1; KByte 2; KClose; KOpen; KVal (VInt 1); KVal (VStr [0x73]); KIsEnd true; KClose; KFalse;
-    KOpen; KKeys [KStr [0x78]]; KClose; KVal (VInt 5); KFalse] ++ [KClose]) [0x2A].
-Proof. exact (obj_root_refines no_narrow id_widen skip_all ex_doc ex_kvs [0x2A] ex_prog _ ex_bytes ex_decodes ex_doc_ok ex_spec). Qed.
+  Done (KOpen :: [KOpen; KByte 1; KClose; KOpen; KVal (VInt 1); KIsEnd false; KClose; KFalse;
+    KOpen; KKeys [KStr [0x78]]; KClose; KVal (VInt 5); KFalse] ++ [KClose]) [0x2A] false.
+Proof. exact (obj_root_refines no_narrow id_widen skip_all ex_doc ex_kvs [0x2A] ex_prog _ _ ex_bytes ex_decodes ex_doc_ok ex_spec). Qed.
 
-(* [ "x", 2, 3 ] read into three int32 targets under Skip: the first is skipped, the others load from their own bytes *)
+(* [ "x", 2, 3 ] read into two int32 targets under Skip: the first is skipped, the second loads from its own
+   bytes, the third element is passed by the destructor *)
 Lemma ex_array : run_arr_root no_narrow id_widen skip_all [0x93; 0xA1; 0x78; 0x02; 0x03; 0x07]
-    (gets [TgInt s32; TgInt s32; TgInt s32]) =
-  Done [KOpen; KFalse; KVal (VInt 2); KVal (VInt 3); KClose] [0x07].
+    (gets [TgInt s32; TgInt s32]) =
+  Done [KOpen; KFalse; KVal (VInt 2); KClose] [0x07] false.
 Proof. vm_compute. reflexivity. Qed.
 
-(* ---------- fuel of the destructor on ARBITRARY input ---------- *)
-Lemma skip_progress d r : skip_value d = SOk r -> (length r < length d)%nat.
-Proof.
-  intros H. pose proof (skip_value_agrees d) as A. unfold agrees in A.
-  destruct (decode d) as [[v r']|] eqn:E.
-  - rewrite H in A. injection A as ->. eapply decode_shorter; eassumption.
-  - destruct A as [e A]. congruence.
-Qed.
-
-Lemma close_loop_fuel : forall fuel c size rest, (length rest < fuel)%nat -> close_loop fuel c size rest <> SFuel.
-Proof.
-  induction fuel as [|f IH]; intros c size rest Hf; [lia|]. cbn [close_loop].
-  destruct (c <? size); [|discriminate].
-  destruct (skip_value rest) as [r1|e|] eqn:E1; [|discriminate | exfalso; exact (skip_value_never_out_of_fuel _ E1)].
-  destruct (skip_value r1) as [r2|e|] eqn:E2; [|discriminate | exfalso; exact (skip_value_never_out_of_fuel _ E2)].
-  apply IH. apply skip_progress in E1. apply skip_progress in E2. lia.
-Qed.
-
-Lemma close_obj_fuel st rest : close_obj st rest <> SFuel.
-Proof.
-  unfold close_obj, reset_key. destruct (o_key st).
-  - destruct (skip_value rest) as [r|e|] eqn:E; [apply close_loop_fuel; lia | discriminate | exfalso; exact (skip_value_never_out_of_fuel _ E)].
-  - apply close_loop_fuel. lia.
-Qed.
+(* {"x": 5, <second member missing>} loaded into a class with member x: the program sees x = 5 and returns
+   normally, the scope's destructor cannot skip the announced second member, Finalize() reports it *)
+Definition trunc_doc : list N := [0x82; 0xA1; 0x78; 0x05].
+Definition trunc_prog : reqs := RCons (RGet (QStr [0x78]) (TgInt s32)) RNil.
+Lemma trunc_run : run_obj_root no_narrow id_widen skip_all trunc_doc trunc_prog = Done [KOpen; KVal (VInt 5); KClose] [] true.
+Proof. vm_compute. reflexivity. Qed.
+Lemma trunc_load : load_obj no_narrow id_widen skip_all trunc_doc trunc_prog = LErr [KOpen; KVal (VInt 5); KClose] (SE EParse).
+Proof. vm_compute. reflexivity. Qed.
